@@ -211,7 +211,9 @@ func compositeDecl(cp sql.Composite) string {
 	st := cp.Type().(*an.Struct)
 	fields := make([]string, len(st.Fields))
 	for i, field := range st.Fields {
-		fields[i] = fmt.Sprintf("%s %s", field.JSONName(), cp.SQLType(i).Name())
+		// like the table columns, the attributes are named after the Go fields :
+		// the JSON name may be "-" or any string
+		fields[i] = fmt.Sprintf("%s %s", field.Field.Name(), cp.SQLType(i).Name())
 	}
 	return fmt.Sprintf("CREATE TYPE %s AS (%s);", cp.Name(), strings.Join(fields, ", "))
 }
